@@ -1,6 +1,7 @@
 import Pfl
-#print axioms Pfl.IG.derivable_sound
-#print axioms Pfl.IG.marks_sound
-#print axioms Pfl.IG.marks_complete
-#print axioms Pfl.IG.isEmpty_iff
-#print axioms Pfl.IG.removeUseless_nonEmpty
+#print axioms Pfl.FS.unify_none_iff
+#print axioms Pfl.FS.unify_facts
+#print axioms Pfl.FS.unify_wt
+#print axioms Pfl.FS.unify_comm
+#print axioms Pfl.CFG.cfgMem_iff
+#print axioms Pfl.CFG.treeValid_sound
